@@ -105,7 +105,13 @@ func (r *rwRT) ruleFilePasses() {
 				case strings.Contains(name, "rewriteIter"):
 					seq = append(seq, "pass:iterType")
 				default:
-					seq = append(seq, "pass:"+name)
+					// not one of the names above: what the callback can reach decides (a pass object with a
+					// method of its own, a renamed function)
+					if cls := r.passClassByReach(name); cls != "" {
+						seq = append(seq, "pass:"+cls)
+					} else {
+						seq = append(seq, "pass:"+name)
+					}
 				}
 			case e.Kind == "call" && e.Fn != nil && inRw(e.Fn) && (e.Fn.Name() == "rewriteYieldFunc" || reachesFn(e.Fn, "rewriteYieldFunc", 4)):
 				// the generator pass performed by a direct call instead of a traversal
@@ -211,6 +217,36 @@ func (r *rwRT) ruleFilePasses() {
 }
 
 // reachesFn: does fn statically call (within depth) a function named target?
+// passClassByReach classifies a traversal callback, given by the full name of its function (a bound method value
+// ends in $bound), by the lowering it can reach: the delegation lowering, the consumer-loop lowering, the generator
+// lowering; a callback that reaches none of them but asks the iterator-type predicate and edits the tree is the
+// iterator-type pass.
+func (r *rwRT) passClassByReach(name string) string {
+	name = strings.TrimSuffix(name, "$bound")
+	var fn *ssaFunction
+	for _, f := range r.w.FuncsOf(pathRw) {
+		if f.String() == name || strings.HasSuffix(name, "+"+f.String()) {
+			fn = f
+		}
+	}
+	if fn == nil {
+		return ""
+	}
+	switch {
+	case reachesFn(fn, "rewriteYieldFrom", 4):
+		return "yieldFrom"
+	case reachesFn(fn, "rewriteForRange", 4):
+		return "consumerRanges"
+	case reachesFn(fn, "rewriteYieldFunc", 4):
+		return "yield"
+	case reachesFn(fn, "isIterator", 3) && reachesFn(fn, "Replace", 3):
+		return "iterType"
+	case reachesFn(fn, "AppendComment", 3) || reachesFn(fn, "Comment", 3):
+		return "comments"
+	}
+	return ""
+}
+
 func reachesFn(fn interface{ String() string }, target string, depth int) bool {
 	f, ok := fn.(*ssaFunction)
 	if !ok || f == nil || depth < 0 {
